@@ -211,12 +211,51 @@ SameModEnc(got, ref) == SameBytes(PctDecode(UTF8(got)), UTF8(ref))
 Then(c, rest) == IF c # "ok" THEN c ELSE rest
 
 -----------------------------------------------------------------------------
-(* Normal form                                                                 *)
+(* Dot-segment removal: the fold urllib3 uses (ModelRemoveDots) and RFC 3986 5.2.4 literally     *)
+(* (RFCRemoveDots).  Both are needed by the Rules only as *references for the text of the path*  *)
+(* when judging double-encoding; "dot segments removed" itself is NoDotSegments.                 *)
 SegStart(p, i) == i = 1 \/ p[i - 1] = SLASH
 SegEnd(p, j) == j = Len(p) \/ p[j + 1] = SLASH
 NoDotSegments(p) == \A i \in 1..Len(p) :
     (SegStart(p, i) /\ p[i] = DOT) => /\ ~SegEnd(p, i)
                                       /\ ~(i + 1 <= Len(p) /\ p[i + 1] = DOT /\ SegEnd(p, i + 1))
+RECURSIVE SplitFrom(_, _)
+SplitAt(p, i, j) == IF j > Len(p) THEN <<SubSeq(p, i, Len(p))>> ELSE <<SubSeq(p, i, j - 1)>> \o SplitFrom(p, j + 1)
+SplitFrom(p, i) == SplitAt(p, i, FirstIn(p, i, Len(p), {SLASH}))
+RECURSIVE RDFold(_, _, _)
+RDFold(segs, i, out) ==
+  IF i > Len(segs) THEN out
+  ELSE IF segs[i] = <<DOT>> THEN RDFold(segs, i + 1, out)
+  ELSE IF segs[i] # <<DOT, DOT>> THEN RDFold(segs, i + 1, Append(out, segs[i]))
+  ELSE RDFold(segs, i + 1, IF out = <<>> THEN out ELSE SubSeq(out, 1, Len(out) - 1))
+RECURSIVE JoinFrom(_, _)
+JoinFrom(segs, i) == IF i > Len(segs) THEN <<>> ELSE IF i = Len(segs) THEN segs[i]
+                     ELSE segs[i] \o <<SLASH>> \o JoinFrom(segs, i + 1)
+EndsWith(p, q) == Len(p) >= Len(q) /\ SubSeq(p, Len(p) - Len(q) + 1, Len(p)) = q
+RD3(p, o2) == JoinFrom(IF EndsWith(p, <<SLASH, DOT>>) \/ EndsWith(p, <<SLASH, DOT, DOT>>) THEN Append(o2, <<>>) ELSE o2, 1)
+RD2(p, o1) == RD3(p, IF p # <<>> /\ p[1] = SLASH /\ (o1 = <<>> \/ o1[1] # <<>>) THEN <<<<>>>> \o o1 ELSE o1)
+ModelRemoveDots(p) == RD2(p, RDFold(SplitFrom(p, 1), 1, <<>>))
+
+\* RFC 3986 5.2.4 remove_dot_segments, transcribed literally (input buffer / output buffer); stage 1
+\* checks that the implementation-shaped fold above computes the same on every absolute path
+DropLastSeg(out) == SubSeq(out, 1, LastIn(out, 1, Len(out), {SLASH}) - 1)
+Drop(t, k) == SubSeq(t, k + 1, Len(t))
+RECURSIVE RFCDots(_, _)
+RFCMove(in, out, e) == RFCDots(Drop(in, e), out \o SubSeq(in, 1, e))      \* e: end of the first segment
+RFCDots(in, out) ==
+    IF in = <<>> THEN out
+    ELSE IF StartsWith(in, <<DOT, DOT, SLASH>>) THEN RFCDots(Drop(in, 3), out)
+    ELSE IF StartsWith(in, <<DOT, SLASH>>) THEN RFCDots(Drop(in, 2), out)
+    ELSE IF StartsWith(in, <<SLASH, DOT, SLASH>>) THEN RFCDots(Drop(in, 2), out)
+    ELSE IF in = <<SLASH, DOT>> THEN RFCDots(<<SLASH>>, out)
+    ELSE IF StartsWith(in, <<SLASH, DOT, DOT, SLASH>>) THEN RFCDots(Drop(in, 3), DropLastSeg(out))
+    ELSE IF in = <<SLASH, DOT, DOT>> THEN RFCDots(<<SLASH>>, DropLastSeg(out))
+    ELSE IF in \in {<<DOT>>, <<DOT, DOT>>} THEN RFCDots(<<>>, out)
+    ELSE RFCMove(in, out, FirstIn(in, 2, Len(in), {SLASH}) - 1)
+RFCRemoveDots(p) == RFCDots(p, <<>>)
+
+-----------------------------------------------------------------------------
+(* Normal form                                                                 *)
 Opt(x) == IF x = NONE THEN <<>> ELSE x           \* absent and empty are the same text
 
 \* upper-case letters are allowed only in the zone id of an IP-literal (RFC 6874: opaque, case-sensitive)
@@ -237,13 +276,15 @@ NormalFormClause(u) ==
 IsNormalForm(u) == NormalFormClause(u) = "ok"
 
 \* "no double-encoding of valid escapes": decoding the result once gives what decoding the input once
-\* gives.  Demanded for components in which every '%' starts a valid escape (latitude), and for the
-\* path only when no dot segment is removed and Url() adds no leading '/'.
+\* gives.  Demanded for components in which every '%' starts a valid escape (latitude); for the path
+\* the input text is the path after dot removal (urllib3's fold or RFC 3986 5.2.4 - stage 1 shows where
+\* the two differ), and only when Url() adds no leading '/'.
 NoDoubleBytes(got, br) == AllPctValid(br) => PctDecode(UTF8(got)) = PctDecode(br)
 NoDoubleEnc(got, ref) == NoDoubleBytes(got, UTF8(ref))
+PathNoDouble(got, p) == NoDoubleEnc(got, ModelRemoveDots(p)) \/ NoDoubleEnc(got, RFCRemoveDots(p))
 DoubleEncClause(u, R) ==
     IF ~NoDoubleEnc(Opt(u.auth), Opt(R.userinfo)) THEN "NF:DoubleEncoding:userinfo"
-    ELSE IF (R.path = <<>> \/ R.path[1] = SLASH) /\ NoDotSegments(R.path) /\ ~NoDoubleEnc(Opt(u.path), R.path)
+    ELSE IF (R.path = <<>> \/ R.path[1] = SLASH) /\ ~PathNoDouble(Opt(u.path), R.path)
          THEN "NF:DoubleEncoding:path"
     ELSE IF ~NoDoubleEnc(Opt(u.query), Opt(R.query)) THEN "NF:DoubleEncoding:query"
     ELSE IF ~NoDoubleEnc(Opt(u.fragment), Opt(R.fragment)) THEN "NF:DoubleEncoding:fragment"
@@ -291,41 +332,6 @@ Verdict(e) ==
 -----------------------------------------------------------------------------
 (* MODEL: what parse_url does where the reading fixes it                        *)
 SimpleHost(h) == \A i \in 1..Len(h) : Unreserved(h[i])
-
-RECURSIVE SplitFrom(_, _)
-SplitAt(p, i, j) == IF j > Len(p) THEN <<SubSeq(p, i, Len(p))>> ELSE <<SubSeq(p, i, j - 1)>> \o SplitFrom(p, j + 1)
-SplitFrom(p, i) == SplitAt(p, i, FirstIn(p, i, Len(p), {SLASH}))
-RECURSIVE RDFold(_, _, _)
-RDFold(segs, i, out) ==
-  IF i > Len(segs) THEN out
-  ELSE IF segs[i] = <<DOT>> THEN RDFold(segs, i + 1, out)
-  ELSE IF segs[i] # <<DOT, DOT>> THEN RDFold(segs, i + 1, Append(out, segs[i]))
-  ELSE RDFold(segs, i + 1, IF out = <<>> THEN out ELSE SubSeq(out, 1, Len(out) - 1))
-RECURSIVE JoinFrom(_, _)
-JoinFrom(segs, i) == IF i > Len(segs) THEN <<>> ELSE IF i = Len(segs) THEN segs[i]
-                     ELSE segs[i] \o <<SLASH>> \o JoinFrom(segs, i + 1)
-EndsWith(p, q) == Len(p) >= Len(q) /\ SubSeq(p, Len(p) - Len(q) + 1, Len(p)) = q
-RD3(p, o2) == JoinFrom(IF EndsWith(p, <<SLASH, DOT>>) \/ EndsWith(p, <<SLASH, DOT, DOT>>) THEN Append(o2, <<>>) ELSE o2, 1)
-RD2(p, o1) == RD3(p, IF p # <<>> /\ p[1] = SLASH /\ (o1 = <<>> \/ o1[1] # <<>>) THEN <<<<>>>> \o o1 ELSE o1)
-ModelRemoveDots(p) == RD2(p, RDFold(SplitFrom(p, 1), 1, <<>>))
-
-\* RFC 3986 5.2.4 remove_dot_segments, transcribed literally (input buffer / output buffer); stage 1
-\* checks that the implementation-shaped fold above computes the same on every absolute path
-DropLastSeg(out) == SubSeq(out, 1, LastIn(out, 1, Len(out), {SLASH}) - 1)
-Drop(t, k) == SubSeq(t, k + 1, Len(t))
-RECURSIVE RFCDots(_, _)
-RFCMove(in, out, e) == RFCDots(Drop(in, e), out \o SubSeq(in, 1, e))      \* e: end of the first segment
-RFCDots(in, out) ==
-    IF in = <<>> THEN out
-    ELSE IF StartsWith(in, <<DOT, DOT, SLASH>>) THEN RFCDots(Drop(in, 3), out)
-    ELSE IF StartsWith(in, <<DOT, SLASH>>) THEN RFCDots(Drop(in, 2), out)
-    ELSE IF StartsWith(in, <<SLASH, DOT, SLASH>>) THEN RFCDots(Drop(in, 2), out)
-    ELSE IF in = <<SLASH, DOT>> THEN RFCDots(<<SLASH>>, out)
-    ELSE IF StartsWith(in, <<SLASH, DOT, DOT, SLASH>>) THEN RFCDots(Drop(in, 3), DropLastSeg(out))
-    ELSE IF in = <<SLASH, DOT, DOT>> THEN RFCDots(<<SLASH>>, DropLastSeg(out))
-    ELSE IF in \in {<<DOT>>, <<DOT, DOT>>} THEN RFCDots(<<>>, out)
-    ELSE RFCMove(in, out, FirstIn(in, 2, Len(in), {SLASH}) - 1)
-RFCRemoveDots(p) == RFCDots(p, <<>>)
 
 ModelCmp(x, kind, norm) == IF x = NONE THEN NONE ELSE IF norm /\ x # <<>> THEN ModelEnc(x, kind) ELSE x
 ModelPath(p0, R) == IF p0 = <<>> THEN (IF R.query # NONE \/ R.fragment # NONE THEN <<>> ELSE NONE)
